@@ -25,7 +25,7 @@ set_option maxRecDepth 8192 in
     function are exactly the expected ones, and every expected panic site is a `Res.panic` site of a model -/
 theorem panic_sites_accounted :
     Facts.C19.partialOps = Sites.expectedOps ∧
-    (∀ s ∈ Sites.expectedSites, s ∈ (Dpop.sites ++ Resolver.sites ++ Bitstring.sites ++ Iblt.sites ++ Callback.sites ++ StatusList.sites ++ DidKey.sites ++ DidWeb.sites).map (·.2)) := by
+    (∀ s ∈ Sites.expectedSites, s ∈ (Dpop.sites ++ Resolver.sites ++ Bitstring.sites ++ Iblt.sites ++ Callback.sites ++ StatusList.sites ++ DidKey.sites ++ DidWeb.sites ++ Cred.sites ++ Jwx.sites).map (·.2)) := by
   constructor <;> decide
 
 /-- the source today is the repaired source: checked assertions in dpop.go and key.go, nil guards on verification
